@@ -186,6 +186,8 @@ class Engine:
             raise Abort('budget', 'max_decisions')
         if i < len(self.prefix):
             d = self.prefix[i]
+            if d[0] == 'E':
+                raise RuntimeError('non-deterministic scenario: decision kinds differ between runs')
             self.trace.append(d)
             self._push(cond if d[0] else z3.Not(cond))
             self.model = None
@@ -316,6 +318,8 @@ class Engine:
 
     def fresh_bytes(self, name, n):
         if self.concrete is not None:
+            if n == 0:
+                return b''
             v = self.concrete[name]
             return bytes.fromhex(v['bytes'])
         if n == 0:
@@ -360,11 +364,7 @@ class Engine:
             return int(self.concrete[name])
         t = self._register(name, 'int', z3.Int(name))
         self.assume(z3.And(t >= 0, t < n))
-        for k in range(n - 1):
-            if self.decide(t == k):
-                return k
-        self.assume(t == n - 1)
-        return n - 1
+        return _enumerate_int(t, name)
 
     def anon(self, sort_bits=8, tag='u'):
         return z3.BitVec(f'_{tag}{next(self._fresh)}', sort_bits)
@@ -401,7 +401,8 @@ class Engine:
                     st.forked_paths += 1
                 if len(st.samples) < self.keep_samples:
                     w = self.reachable()
-                    st.samples.append({'decisions': ''.join('T' if d[0] else 'F' for d in self.trace)[:200],
+                    st.samples.append({'decisions': ''.join(('T' if d[0] else 'F') if d[0] != 'E' else f'[{d[3]}]'
+                                                            for d in self.trace)[:200],
                                        'notes': list(self.labels)[:20], 'witness_inputs': _short(w)})
             except Violation as v:
                 outcome = 'violation'
@@ -433,7 +434,10 @@ class Engine:
             if not tr:
                 break
             d = tr.pop()
-            tr.append([not d[0], False] + d[2:])
+            if d[0] == 'E':
+                tr.append(['E', None, d[2] + [d[3]], None])
+            else:
+                tr.append([not d[0], False] + d[2:])
             self.prefix = [list(x) for x in tr]
             if self.max_paths and st.paths >= self.max_paths:
                 self.truncated = True
@@ -563,19 +567,76 @@ def _enumerate_int(term, what):
     s = z3.simplify(term)
     if z3.is_int_value(s) or z3.is_bv_value(s):
         return s.as_long()
-    for _ in range(4096):
-        p = eng.replay_payload()
-        if p is not None:
-            v = z3.BitVecVal(p, term.size()) if z3.is_bv(term) else z3.IntVal(p)
-        else:
-            if eng.model is None or eng._holds_in_model(z3.BoolVal(True)) is None:
-                r = eng._check()
-                if r != z3.sat:
-                    raise Abort('unknown', 'enumerate')
-            v = eng.model.eval(term, model_completion=True)
-        if eng.decide(term == v, payload=v.as_long()):
-            return v.as_long()
-    raise Unencodable(f'unbounded enumeration of {what}')
+    known = eng.path_local.setdefault('known_values', {})
+    kid = s.get_id()
+    if kid in known:
+        return known[kid]
+    r = _enumerate_int2(eng, s, what)
+    known[kid] = r
+    return r
+
+
+def known_value(x):
+    '''Native int if the proxy's value has already been decided on this path, else None.'''
+    if isinstance(x, int):
+        return x
+    s = z3.simplify(x.e)
+    if z3.is_int_value(s) or z3.is_bv_value(s):
+        return s.as_long()
+    return _ENGINE.path_local.get('known_values', {}).get(s.get_id())
+
+
+def _enumerate_int2(eng, term, what):
+    """n-ary decision: pick a feasible value of term, remember the values already tried."""
+    i = len(eng.trace)
+    tried = []
+    if i < len(eng.prefix):
+        d = eng.prefix[i]
+        if d[0] != 'E':
+            raise RuntimeError('non-deterministic scenario: decision kinds differ between runs')
+        if d[3] is not None:
+            eng.trace.append(d)
+            eng._push(term == _num(term, d[3]))
+            eng.model = None
+            return d[3]
+        tried = d[2]
+    else:
+        if i >= eng.max_decisions:
+            raise Abort('budget', 'max_decisions')
+    eng.stats.decisions += 1
+    excl = [term != _num(term, t) for t in tried]
+    if len(tried) > 4096:
+        raise Unencodable(f'unbounded enumeration of {what}')
+    v = None
+    if not tried and eng.model is not None:
+        mv = eng.model.eval(term, model_completion=True)
+        if z3.is_int_value(mv) or z3.is_bv_value(mv):
+            v = mv.as_long()
+    if v is None:
+        r = eng._check(*excl)
+        if r == z3.unsat:
+            raise Abort('infeasible')
+        if r != z3.sat:
+            raise Abort('unknown', 'enumerate')
+        v = eng.model.eval(term, model_completion=True).as_long()
+    saved = eng.model
+    r = eng._check(*excl, term != _num(term, v))
+    if r == z3.sat:
+        more = True
+    elif r == z3.unsat:
+        more = False
+    else:
+        raise Abort('unknown', 'enumerate')
+    eng.model = saved
+    eng.trace.append(['E', more, list(tried), v])
+    eng._push(term == _num(term, v))
+    if eng._holds_in_model(term == _num(term, v)) is not True:
+        eng.model = None
+    return v
+
+
+def _num(term, v):
+    return z3.BitVecVal(v, term.size()) if z3.is_bv(term) else z3.IntVal(v)
 
 
 class SInt:
